@@ -365,6 +365,8 @@ def elements(H, tier):
                                  con("SameWorkers", "c1", select_workers_1=R("s"), select_workers_2=R("r"))]))
     out.append(("cumulative", [cumul("w", 2), req("a", "w"), req("b", "w")]))
     out.append(("dynamic", [worker("w"), req("a", "w", dynamic=True), req("b", "w")]))
+    out.append(("delay", [worker("w"), req("a", "w", delay_in=2), req("b", "w", delay_in=1)]))
+    out.append(("delay", [worker("w"), req("a", "w", delay_in=3), req("b", "w", early_out=1)]))
     for cls in ("NonConcurrentBuffer", "ConcurrentBuffer"):
         out.append((cls, [new(cls, "bf", name="bf", initial_level=2, lower_bound=0),
                           con("TaskUnloadBuffer", "c1", task=R("a"), buffer=R("bf"), quantity=2),
